@@ -38,7 +38,8 @@ Inductive cond : Type :=
 | BHas (r : reg) (k : expr)      (* `k in d` *)
 | BNot (c : cond)
 | BAnd (a b : cond)
-| BTrue (e : expr).              (* python truthiness as Iso.is_true sees it on the snapshot *)
+| BTrue (e : expr)               (* python truthiness as Iso.is_true sees it on the snapshot *)
+| BOptInline.                    (* self.write_inline_positioning *)
 
 Inductive cmd : Type :=
 | CSkip
@@ -111,6 +112,7 @@ Fixpoint evb (o : wopts) (st : store) (env : reg -> val) (c : cond) : bool :=
                | VNone => false
                | VLoc l => match items_of st (VLoc l) with [] => false | _ => true end
                end
+  | BOptInline => wo_inline o
   end.
 
 Definition slot_code (st : store) (ob k : val) : Z :=
@@ -238,6 +240,7 @@ Fixpoint buse (u : list reg) (b : cond) : bool :=
   | BNot c => buse u c
   | BAnd a b => buse u a && buse u b
   | BTrue e => euse u e
+  | BOptInline => true
   end.
 
 (* du c u = Some u' : started with the registers u holding UNKNOWN values, c never reads one of them before assigning it;
@@ -342,6 +345,9 @@ Definition dfxp_body (src : reg) (copy : cmd) : cmd :=
           CKeys 2 1;
           CIf (BHas 1 EOptLang) (CNew 2 KList [(ENone, EOptLang)]) CSkip;
           copy;
+          (* if self.write_inline_positioning and self.relativize and caption_set.layout_info:
+                 caption_set.layout_info = caption_set.layout_info.as_percentage_of(..) *)
+          CIf BOptInline (assign_tr 2 3 3 false false) CSkip;
           CGet 4 3 (EInt 1);
           CFor 5 2 (block [ CGet 6 4 (EReg 5);
                             assign_tr 2 6 1 true false;
